@@ -675,3 +675,93 @@ def rule_list_owner(ctx, rep, config="c-lib"):
                           "same list, and when the minimal cost translations are chosen the first owner relinks it -- the second owner sees a truncated list (minimal "
                           "translations missing, or a non-minimal cost)", where=s.where(), witness=[s.where()] + K.notes[:3])
     rep.floor("C03-owner", "node pointers stored by copy_anode", n, 1)
+
+
+def rule_table_complete(ctx, rep, config="c-lib"):
+    rep.rule("C03-table", "every abstract node made for a (rule, origin, end) triple is recorded in the table entry of the triple, because a parent that meets the triple "
+                          "later takes its translation from the entry alone: the node allocated in make_parse is stored into table_state->anode, and so must be every "
+                          "copy that copy_anode makes of such a node for another split of the rule (a copy that is only placed into the slot of the parent being "
+                          "processed is invisible to the other parents: their alternatives lack the translations through the copy)")
+    p = ctx.prog(config)
+    f = p.fn("make_parse")
+    rep.cover(p, [f.name, "copy_anode", "parse_state_insert"])
+    ins = [c_ for c_ in f.calls() if c_.callee == "parse_state_insert"]
+    if len(ins) != 1:
+        raise AnalysisBroken("C03-table: %d calls of parse_state_insert" % len(ins))
+    entry = ins[0]
+
+    def recorded(val_id):
+        """is the value stored into the anode member of the table entry?"""
+        ids = cast_aliases(f, {"k": "i", "v": val_id})
+        for s in f.all_insts():
+            if s.op == "store" and strip_casts(f, s.ops[0]).get("v") in ids and resolve_addr(f, s.ops[1]).last_field() == "parse_state.anode":
+                pa = resolve_addr(f, s.ops[1])
+                h = f.inst(strip_casts(f, pa.root[1])) if pa.root[0] == "val" else None
+                if h is not None and _from_call(f, h, entry):
+                    return True
+        return False
+    n = 0
+    # fresh nodes of table states
+    for s in f.all_insts():
+        if s.op == "store" and resolve_addr(f, s.ops[1]).last_field() == "parse_state.anode":
+            v = f.inst(strip_casts(f, s.ops[0]))
+            if v is not None and via_global(f, v, "parse_alloc"):
+                pa = resolve_addr(f, s.ops[1])
+                h = f.inst(strip_casts(f, pa.root[1])) if pa.root[0] == "val" else None
+                if h is not None and not _from_call(f, h, entry):
+                    n += 1
+                    if recorded(v.id):
+                        rep.ok("C03-table", "make_parse/new-node-recorded", sample={"store": s.where()})
+                    else:
+                        rep.violation("C03-table", "make_parse/new-node-recorded", "a new abstract node is not recorded in the table entry of its triple", where=s.where())
+    for c_ in f.calls():
+        if c_.callee != "copy_anode":
+            continue
+        n += 1
+        if recorded(c_.id):
+            rep.ok("C03-table", "make_parse/copy-recorded", sample={"call": c_.where()})
+        else:
+            rep.violation("C03-table", "make_parse/copy-recorded", "the copy that copy_anode makes of an abstract node for another split of its rule is placed into the current "
+                          "parent's slot only and is not recorded for its (rule, origin, end) triple: a parent that finds the triple in the table gets the first node "
+                          "alone -- the DAG lacks the translations through the copy (E : 'a' | E E on aaaaa: 11 of 14 trees)", where=c_.where(), witness=[entry.where(), c_.where()])
+    rep.floor("C03-table", "node creations for table triples", n, 2)
+
+
+def rule_origins_followed(ctx, rep, config="c-lib"):
+    rep.rule("C03-origins", "when a nonterminal before the dot has reduce situations with different origins, make_parse continues the enclosing rule from each origin: "
+                            "the push of a copy of the current state with pl_ind = the new origin does not depend on whether the nonterminal's translation is used "
+                            "(disp >= 0, parent node present) -- the rest of the rule is translated differently for each origin also when this symbol itself is dropped")
+    from ..model import strip_int_casts
+    p = ctx.prog(config)
+    f = p.fn("make_parse")
+    rep.cover(p, [f.name])
+    sites = []
+    for s in f.all_insts():
+        if s.op != "store" or resolve_addr(f, s.ops[1]).last_field() != "parse_state.pl_ind":
+            continue
+        pa = resolve_addr(f, s.ops[1])
+        h = f.inst(strip_casts(f, pa.root[1])) if pa.root[0] == "val" else None
+        if h is None or not (h.is_call() and h.callee == "parse_state_alloc"):
+            continue
+        # preceded by a whole-state copy (*state = *orig_state)
+        copies = [c_ for c_ in s.block.insts if c_.is_call() and (c_.callee or "").startswith("llvm.memcpy") and c_.idx < s.idx]
+        if copies:
+            sites.append(s)
+    if len(sites) != 1:
+        raise AnalysisBroken("C03-origins: %d pushes of a state copy for another origin (1 confirmed by reading)" % len(sites))
+    s = sites[0]
+    dep = []
+    for (cc, pol) in _controlling_conditions(f, s.block.name):
+        for o in cc.ops:
+            i = f.inst(strip_int_casts(f, o))
+            if i is not None and i.op == "load":
+                pa = resolve_addr(f, i.ops[0])
+                b = loaded_from(f, pa.root[1]) if pa.root[0] == "val" else None
+                if b is not None and b.last_field() == "rule.order":
+                    dep.append((cc, "the symbol's translation is used (order[pos] >= 0)"))
+    if dep:
+        rep.violation("C03-origins", "make_parse/other-origin-pushed", "the state for another origin of the nonterminal is pushed only when %s: for a nonterminal whose "
+                      "translation is dropped only the first origin is followed, the translations of the rest of the rule for the other origins are missing "
+                      "(S : B A # s (0), A : 'a' | 'a' 'a' on aaa: one of two trees)" % dep[0][1], where=s.where(), witness=[dep[0][0].where(), s.where()])
+    else:
+        rep.ok("C03-origins", "make_parse/other-origin-pushed", sample={"push": s.where()})
